@@ -55,7 +55,7 @@ def variants(row, tier):
     d = ("default", "default", "memory", "string", 1)
     out = [d]
     axes = [
-        [("oblique",), ("nonterm",)],
+        [("oblique",), ("nonterm",), ("eq_ab",), ("eq_bc",), ("eq_ac",)],
         [("two_letter",), ("twelve",), ("half_occ",), ("precise",)],
         [("from_cif",), ("from_res",)],
         [("file",)],
@@ -77,7 +77,26 @@ def variants(row, tier):
     return out
 
 
+def equal_parameter_cell(row, which):
+    """metrically allowed but accidental equalities: a = b, b = c (and, for triclinic, alpha = gamma) in low-symmetry families"""
+    n = row["number"]
+    base = list(lattice.compatible_cells(n, row["choice"])[0])
+    if n > 74:
+        return tuple(base)
+    if which == "eq_ab":
+        base[1] = base[0]
+    elif which == "eq_bc":
+        base[2] = base[1]
+    elif which == "eq_ac":
+        base[2] = base[0]
+    if n <= 2 and which == "eq_ab":
+        base[5] = base[3]  # gamma = alpha as well
+    return tuple(base)
+
+
 def cell_for(row, cellvar):
+    if cellvar.startswith("eq_"):
+        return equal_parameter_cell(row, cellvar)
     cells = lattice.compatible_cells(row["number"], row["choice"])
     if cellvar == "default":
         return cells[0]
@@ -301,7 +320,7 @@ def run(ctx):
 
     table = symm.load_table()
     nvar = len(variants(table[0], ctx.tier))
-    ctx.rule = ("530 settings x {CIF, .res, POSCAR} x %d variants within %d deviation(s) of the default (cell: oblique / non-terminating; asymmetric unit: "
+    ctx.rule = ("530 settings x {CIF, .res, POSCAR} x %d variants within %d deviation(s) of the default (cell: oblique / non-terminating / accidentally equal lengths a=b, b=c, a=c; asymmetric unit: "
                 "two-letter elements+suffix labels / 12 atoms / half occupancies / 12-digit coordinates; provenance: from CIF / from .res; route: "
                 "files incl. POSCAR, CONTCAR; two generations); states = settings, transitions = save->load steps, traces = texts read by the "
                 "independent reference readers" % (nvar, 2 if ctx.thorough else 1))
